@@ -34,6 +34,8 @@ pub struct Recorder {
     inhand: Vec<u32>,
     /// per task: idle objects rejected (by injected failures) during the current get
     nrej: Vec<usize>,
+    /// per task: length of the call log when its retain() started
+    retain_from: Vec<usize>,
     close_ret: bool,
     /// per task: the operation in progress
     op: Vec<&'static str>,
@@ -70,6 +72,7 @@ impl Recorder {
             timedout: false,
             inhand: vec![],
             nrej: vec![],
+            retain_from: vec![],
             close_ret: false,
             op: vec![],
             arg: vec![],
@@ -100,6 +103,7 @@ impl Recorder {
         self.close_ret = false;
         self.inhand = vec![0; n];
         self.nrej = vec![0; n];
+        self.retain_from = vec![0; n];
         self.op = vec!["none"; n];
         self.arg = vec![0; n];
         self.mode = vec![String::new(); n];
@@ -225,6 +229,7 @@ impl Recorder {
             }
             "StartClose" => self.op[t] = "close",
             "StartRetain" => {
+                self.retain_from[t] = w.truth().calls.len();
                 self.op[t] = "retain";
                 self.usedrt = true;
             }
@@ -317,7 +322,9 @@ impl Recorder {
                     _ => None,
                 };
                 if let Some((kind, idx, _)) = at {
-                    if out == "ok" {
+                    if kind == CallKind::Pred {
+                        // not part of a get()
+                    } else if out == "ok" {
                         let tag = match kind {
                             CallKind::Create | CallKind::Recycle => kind.name().to_string(),
                             _ => format!("{}{}", kind.name(), idx),
@@ -378,7 +385,8 @@ impl Recorder {
         // remember which object is in hand for rejection bookkeeping
         if matches!(st.a.as_str(), "Call" | "Resume" | "Cancel" | "Expire") {
             let out = st.x.first().and_then(|v| v.as_str()).unwrap_or(if st.a == "Call" || st.a == "Resume" { "ok" } else { "fail" });
-            if out != "ok" && out != "susp" {
+            let is_pred = matches!(before, Some(TState::AtCall { kind: CallKind::Pred, .. }));
+            if out != "ok" && out != "susp" && !is_pred {
                 // the object in hand is given up: whatever comes next starts a new chain
                 self.chain[t].clear();
                 let objid = match before {
@@ -395,18 +403,17 @@ impl Recorder {
         if let Some(TState::AtPoint("m.retain.lock")) = before {
             // idle list right before the walk
             self.idle_before_walk[t] = w.pre_idle.clone();
-            if st.a != "RtWalk" {
-                // walk executed without a script (drain phase): the predicate keeps everything
-                self.keep[t] = w.pre_idle.clone();
-            }
+            self.keep[t].clear();
         }
-        if st.a == "RtWalk" {
-            self.keep[t] = st
-                .x
-                .first()
-                .and_then(|v| v.as_array())
-                .map(|a| a.iter().filter_map(|v| v.as_u64()).map(|v| v as u32).collect())
-                .unwrap_or_default();
+        if let Some(TState::AtCall { kind: CallKind::Pred, obj, .. }) = before {
+            // the predicate's answer for this object
+            let keep = match st.a.as_str() {
+                "RtPred" => st.x.first().and_then(|v| v.as_bool()).unwrap_or(true),
+                _ => st.x.first().and_then(|v| v.as_str()).unwrap_or("ok") != "err",
+            };
+            if keep {
+                self.keep[t].push(*obj);
+            }
         }
         if st.a == "StartGet" && others_idle {
             // status and truth before this get did anything (the start command only runs
@@ -437,9 +444,8 @@ impl Recorder {
                 OpResult::Retain { retained, removed } => {
                     // the predicate calls of this retain, in call order
                     let truth = w.truth();
-                    let mut calls: Vec<u32> = truth.calls.iter().rev().take_while(|c| c.kind == CallKind::Pred || c.kind == CallKind::Detach)
-                        .filter(|c| c.kind == CallKind::Pred && c.task == t as i32).map(|c| c.obj).collect();
-                    calls.reverse();
+                    let from = self.retain_from[t].min(truth.calls.len());
+                    let calls: Vec<u32> = truth.calls[from..].iter().filter(|c| c.kind == CallKind::Pred && c.task == t as i32).map(|c| c.obj).collect();
                     drop(truth);
                     e["predcalls"] = json!(calls);
                     e["retained"] = json!(retained);
